@@ -3,6 +3,7 @@ package meta
 import (
 	"fmt"
 	"strings"
+	"sync/atomic"
 )
 
 var uid int64
@@ -436,8 +437,7 @@ func (b *Builder) Uses(o interface{}, ident string) *Uses {
 	if h, valid := b.parentDataDefinition(o, ident); valid {
 		x.parent = h
 		x.originalParent = h
-		x.schemaId = uid
-		uid++
+		x.schemaId = atomic.AddInt64(&uid, 1)
 		if err := h.addDataDefinition(&x); err != nil {
 			b.setErr(err)
 		}
